@@ -218,6 +218,45 @@ class C19(Property):
                     if fn == 'sulfuric_acid_density':
                         c['w'] = g6(rng.uniform(0.05, 0.95))
                     add(c)
+        # --- probes just outside / just inside every documented bound: distances 10^-k (k = 1..13) and 1-3 ulps, plain and unit modes
+        pk = 0
+        for fn in ('water_density', 'water_viscosity', 'water_diffusivity', 'water_permittivity', 'sulfuric_acid_density'):
+            lo, hi = REF_RANGES[fn]
+            if fn == 'water_permittivity':
+                hi = 273.15 + 350
+            for b in (lo, hi):
+                pts = [b] + [b + sg * 10.0 ** -k for k in range(1, 14) for sg in (-1, 1)]
+                x1, x2 = b, b
+                for _ in range(3):
+                    x1, x2 = math.nextafter(x1, -math.inf), math.nextafter(x2, math.inf)
+                    pts += [x1, x2]
+                for T in pts:
+                    mode = modes[pk % 3]
+                    pk += 1
+                    c = {'fn': fn, 'mode': mode, 'T': T, 'probe': True}
+                    if fn == 'water_permittivity':
+                        c['P'] = 1.0
+                    if fn == 'sulfuric_acid_density':
+                        c['w'] = 0.5
+                    if mode != 'plain':
+                        c['usys'] = usys[pk % 3]
+                        c['T_unit'] = 'mK' if c['usys'] == 'alt_mK' else 'K'
+                        if c['usys'] == 'alt_mK':
+                            c['mode'] = 'u2'      # the L1 float op scales by 1e-3 (rounds at ulp distance); the L2 op keeps magnitudes exact
+                        if 'P' in c:
+                            c['P_unit'] = 'bar'
+                    add(c)
+        for b in W_RANGE:
+            for wv in [b] + [b + sg * 10.0 ** -k for k in range(1, 14) for sg in (-1, 1)] + [math.nextafter(b, 0.0), math.nextafter(b, 1.0)]:
+                mode = modes[pk % 3]
+                pk += 1
+                c = {'fn': 'sulfuric_acid_density', 'mode': mode, 'T': 298.15, 'w': wv, 'probe': True}
+                if mode != 'plain':
+                    c['usys'] = usys[pk % 3]
+                    c['T_unit'] = 'mK' if c['usys'] == 'alt_mK' else 'K'
+                    if c['usys'] == 'alt_mK':
+                        c['mode'] = 'u2'
+                add(c)
         m = max(0, n - len(cases))
 
         def lu(lo, hi):
@@ -770,28 +809,32 @@ class C19(Property):
         return self._run(thunk)
 
     def _range_expect(self, c):
-        """(expected warning?, decidable?) from the embedded reference ranges"""
+        """(expected warning?, decidable?): the documented range test evaluated with EXACTLY the documented float comparison (no tolerance):
+        density / viscosity / sulfuric acid on the Celsius temperature t = T - 273.15 (t < 0 or t > 40 / 100 / 50 degC), diffusivity and permittivity on
+        T itself (T < 273.15 or T > 373.15 / 273.15 + 350), sulfuric acid also w < 0.1 or w > 0.9.  Not decidable here only when the temperature is
+        given in a unit different from the units object's kelvin within 1e-9 of a bound (the conversion of the input itself rounds)."""
         fn = c['fn']
         if fn not in REF_RANGES:
             return None, False
-        lo, hi = REF_RANGES[fn]
         T = c['T']
-        if c.get('T0') is not None:        # the range is 0-50 degC counted from the given zero
-            lo, hi = lo - 273.15 + c['T0'], hi - 273.15 + c['T0']
-        near = any(abs(T - b) < 1e-9 * b for b in (lo, hi))
-        out = T < lo or T > hi
-        if fn == 'sulfuric_acid_density':
-            w = c['w']
-            near = near or any(abs(w - b) < 1e-12 for b in W_RANGE)
-            out = out or w < W_RANGE[0] or w > W_RANGE[1]
-        if fn == 'water_permittivity':
-            if out:
-                return True, not near
+        if fn == 'water_density':
+            t = T - 273.15
+            out = t < 0 or t > 40
+        elif fn == 'water_viscosity':
+            t = T - 273.15
+            out = t < 0 or t > 100
+        elif fn == 'water_diffusivity':
+            out = T < 273.15 or T > 373.15
+        elif fn == 'water_permittivity':
+            out = T < 273.15 or T > 273.15 + 350
+        else:
+            t = T - (c['T0'] if c.get('T0') is not None else 273.15)
+            out = t < 0 or t > 50 or c['w'] < 0.1 or c['w'] > 0.9
+        dec = not (self.is_foreign(c) and self._near_boundary(c))
+        if fn == 'water_permittivity' and not out:
             if c['P'] > 2000:              # pressure warnings are outside the clause of the property (temperature)
                 return None, False
-            if abs(T - 343.15) < 1e-6:
-                return None, False
-        return out, not near
+        return out, dec
 
     def _near_boundary(self, c):
         lo, hi = REF_RANGES[c['fn']]
@@ -890,7 +933,12 @@ class C19(Property):
             if not close(g0, c['Hcp'], self.float_tol):
                 return '%s(Hcp=%s, Tderiv=%s, T0=%s) at its reference temperature gives %r M/atm, tabulated Hcp %r' % (
                     c.get('cls', 'Henry'), H, Td, T0, g0, c['Hcp'])
-        if fn in REF_RANGES and not self._near_boundary(c) and sorted(r[2]) != sorted(p[2]):
+        if fn in REF_RANGES:
+            exp, dec = self._range_expect(c)
+            if dec and exp is not None and bool(r[2]) != exp:
+                return '%s(T=%r%s) with units (%s): warning %s but the documented comparison says %s the range' % (
+                    fn, c['T'], (', w=%r' % c['w']) if 'w' in c else '', c['usys'], 'emitted' if r[2] else 'not emitted', 'outside' if exp else 'inside')
+        if fn in REF_RANGES and not (self.is_foreign(c) and self._near_boundary(c)) and sorted(r[2]) != sorted(p[2]):
             return '%s: warnings with units %r, plain %r' % (fn, r[2], p[2])
         return None
 
@@ -1318,6 +1366,8 @@ class C19(Property):
             s += ':foreignT'
         if self.is_malformed(c):
             s += ':malformed'
+        if c.get('probe'):
+            s += ':bound-probe'
         exp, dec = self._range_expect(c) if c['fn'] in REF_RANGES else (None, False)
         if dec:
             s += ':out' if exp else ':in'
